@@ -92,6 +92,9 @@ def e2_part(rep, tier):
                        "symbolic execution of %d representative numeric kernels (evaluate/derivative/indefinite/integral/operators incl. all "
                        "array index asserts of the MIR) over all binary64 inputs: no path reaches a panic" % n_ok, "discharged", 0.0,
                        witness={"kernels": n_ok}, role="kernel-panic"))
+    # NaN-containing histories from the MIR (bit-precise FP kit: NaN is representable)
+    from props import ctrl_obl
+    ctrl_obl.evaluator_obligations(e, [(2, 3), (3, 3)] if tier == "quick" else [(2, 3), (3, 3), (4, 3), (3, 4)], allow_nan=True)
     e.finish()
 
 
@@ -109,4 +112,7 @@ def run(rep, tier):
 
 
 def replay(path):
+    if path.endswith(".json"):
+        from props.c02 import ctrl_replay
+        return ctrl_replay(path)
     return replay_cmd(path)
